@@ -454,16 +454,17 @@ func resetGlobalErr(scope *scope) {
 }
 
 func globalErr(scope *scope, isErr bool, msg string) {
-	val, ok := scope.get("err")
-	if !ok {
+	// Rebind err and errmsg rather than updating their values in place:
+	// an assignment such as `x = err` or `arr[0] = errmsg` shares the value
+	// with the global, and an in-place update would show through it.
+	if _, ok := scope.get("err"); !ok {
 		panic("cannot find global err")
 	}
-	val.Set(&boolVal{V: isErr})
-	val, ok = scope.get("errmsg")
-	if !ok {
+	scope.update("err", &boolVal{V: isErr})
+	if _, ok := scope.get("errmsg"); !ok {
 		panic("cannot find global errmsg")
 	}
-	val.Set(&stringVal{V: msg})
+	scope.update("errmsg", &stringVal{V: msg})
 }
 
 var typeofDecl = &parser.FuncDefStmt{
